@@ -12,8 +12,11 @@ Lemma has_step s th e s' : step_core s th e = Some s' -> forall j, has_inst s j 
 Proof.
   intros H j Hj.
   destruct (step_core_kind _ _ _ _ H) as [? ?|i x ? ? ? ? ? ?|H0|H0|H0|i s0 ? H0|i s0 b ? H0|H0|i ? H0|H0|H0]; subst; auto.
+  - destruct Hj as [Hj Q]. split; [exact Hj|]. intros t. cbn. rewrite get_del. destruct (N.eqb i j); [discriminate|apply Q].
   - destruct e; kind_cases H0; try has_tac.
-    unfold has_inst in *. cbn. rewrite get_set. destruct (N.eqb i j); [discriminate|exact Hj].
+    all: destruct Hj as [Hj Q]; split; cbn; [try exact Hj|intros t; cbn; rewrite get_set; destruct (N.eqb_spec i j); [|apply Q]]; try discriminate.
+    + rewrite get_set. destruct (N.eqb i j); [discriminate|exact Hj].
+    + subst j. apply negb_true_iff in E0. unfold has in E0. destruct (get i (insts s)); [discriminate E0|contradiction].
   - destruct e; kind_cases H0; has_tac.
   - destruct e; kind_cases H0; has_tac.
   - kind_cases H0; has_tac.
@@ -27,8 +30,8 @@ Qed.
 Lemma Rt_step_state s o th i s0 s' : Rt s o -> (forall j, has_inst s j -> has_inst s' j) ->
   step_state s th i s0 = Some s' -> Rt s' o.
 Proof.
-  intros HRt Hh H. pose proof HRt as [H1 Ha Hb H2 H3 H4 H5 H6].
-  kind_cases H; split_andb; subst; rt_pre; rt_direct H1 Ha Hb H2 H3 H4 H5 H6 Hh.
+  intros HRt Hh H. pose proof HRt as [H1 Ha Hb H2 H3 H4 He H5 H6].
+  kind_cases H; split_andb; subst; rt_pre; rt_direct H1 Ha Hb H2 H3 H4 He H5 H6 Hh.
 Qed.
 
 End RtC.
